@@ -41,6 +41,7 @@ def run(rep, tier):
             conversion_rules(rep, F)
             from . import gt_tables
             gt_tables.sequence_tables(rep, F, "R18.7")
+            gt_tables.collection_tables(rep, F, "R18.8")
             gt_tables.run(rep, F, "R18.6")       # accessors / constructors return the stored coordinates (Rect::new normalises, nothing else changes them)
             # positive controls
             rep.expect_control("R18.2")
